@@ -37,7 +37,14 @@ RULE = ("library: 1-3 molecule types of 1-12 atoms, 1-4 CG beads per molecule "
         "sharing one <map> with d, a second CG topology created by the same "
         "CGEngine (from the same or a twin atomistic topology) must map "
         "bit-identically; executable: half of the dump trajectories carry "
-        "one TIMESTEP in every frame (gro frames always have step 0).")
+        "one TIMESTEP in every frame (gro frames always have step 0). "
+        "per-frame presence (csg_map, dump in, dump/gro out): the 240 "
+        "combinations of presence pattern over the frames (AP, PA, APA, PPP, "
+        "AAA) x quantity carried by the present frames (vel, force, both) x "
+        "--vel/--force given or not (4) x first frame processed or skipped "
+        "(--first-frame 2) x output format are run once per 240 runs; a frame "
+        "is judged for a quantity when its own parents carry it and the "
+        "flag is given.")
 
 PAIRS = [("gro", "gro"), ("gro", "dump"), ("dump", "dump"), ("dump", "gro")]
 
@@ -285,9 +292,12 @@ def write_dump(path, frames, with_vel, with_force, rng):
             o.append("%.6f %.6f" % (lo[k], lo[k] + fr["box"][k][k] * 10))
         sfx = fr.get("sfx", "")
         cols = ["id", "type"] + [c + sfx for c in "xyz"]
-        if with_vel:
+        # per-frame column lists are legal in LAMMPS dump files
+        wv = fr.get("has_vel", with_vel)
+        wf = fr.get("has_force", with_force)
+        if wv:
             cols += ["vx", "vy", "vz"]
-        if with_force:
+        if wf:
             cols += ["fx", "fy", "fz"]
         o.append("ITEM: ATOMS " + " ".join(cols))
         order = list(range(n))
@@ -297,9 +307,9 @@ def write_dump(path, frames, with_vel, with_force, rng):
             p = fr["pos"][i]
             ln = "%d %d %.6f %.6f %.6f" % (i + 1, 1 + i % 3, p[0] * 10,
                                            p[1] * 10, p[2] * 10)
-            if with_vel:
+            if wv:
                 ln += " %.6f %.6f %.6f" % tuple(10 * x for x in fr["vel"][i])
-            if with_force:
+            if wf:
                 ln += " %.6f %.6f %.6f" % tuple(fr["force"][i])
             o.append(ln)
     open(path, "w").write("\n".join(o) + "\n")
@@ -472,10 +482,191 @@ def judge_case(chk, case, res, keep_dir):
     return nviol[0] == 0
 
 
+# ----------------------------------------------------------------------------
+# per-frame presence of velocities / forces (csg_map, LAMMPS dump in)
+# ----------------------------------------------------------------------------
+# LAMMPS dump files carry one column list per frame, so velocities and forces
+# may be present in some frames only. Enumerated deterministically:
+# presence pattern over the frames x which quantity the "present" frames carry
+# x --vel/--force given or not x first frame skipped (--first-frame 2) or not x
+# output format (dump: v and f, gro: v).  --begin cannot skip a frame here:
+# neither reader sets a time.
+PF_PATTERNS = [("AP", (0, 1)), ("PA", (1, 0)), ("APA", (0, 1, 0)),
+               ("PPP", (1, 1, 1)), ("AAA", (0, 0, 0))]
+PF_KINDS = ["vel", "force", "both"]
+PF_FLAGS = [(), ("--vel",), ("--force",), ("--vel", "--force")]
+PF_SKIP = [0, 2]
+PF_OUT = ["dump", "gro"]
+PF_COMBOS = [(p, k, f, sk, o) for p in PF_PATTERNS for k in PF_KINDS
+             for f in PF_FLAGS for sk in PF_SKIP for o in PF_OUT]
+PF_KEY = "csg_map/per-frame-presence/"
+
+
+def make_pf_case(rng, d, combo):
+    (pname, pat), kind, flags, skip, outfmt = combo
+    os.makedirs(d)
+    types = gen_system(rng)
+    write_topology(os.path.join(d, "top.xml"), types, rng)
+    cgs = []
+    for k, t in enumerate(types):
+        p = os.path.join(d, "map%d.xml" % k)
+        write_mapping(p, t)
+        cgs.append(p)
+    maximg = rng.choice([1, 1, 3]) if outfmt == "gro" else \
+        rng.choice([1, 3, 100])
+    frames = []
+    for fi, present in enumerate(pat):
+        fr = gen_frame(rng, types, "dump", False, 1e-7, maximg)
+        fr["has_vel"] = bool(present) and kind in ("vel", "both")
+        fr["has_force"] = bool(present) and kind in ("force", "both")
+        fr["shuffle"] = rng.random() < 0.3
+        frames.append(fr)
+    trj = os.path.join(d, "traj.dump")
+    write_dump(trj, frames, False, False, rng)
+    return {"dir": d, "top": os.path.join(d, "top.xml"), "cg": cgs,
+            "trj": trj, "out": os.path.join(d, "out." + outfmt),
+            "infmt": "dump", "outfmt": outfmt, "flags": list(flags),
+            "skip": skip, "pattern": pname, "kind": kind,
+            "label": "%s/%s/%s/first-frame=%d/%s" % (
+                pname, kind, "+".join(f[2:] for f in flags) or "noflag",
+                skip, outfmt)}
+
+
+def run_pf_case(case, exe, env):
+    cmd = [exe, "--top", case["top"], "--trj", case["trj"], "--cg",
+           ";".join(case["cg"]), "--out", case["out"]] + case["flags"]
+    if case["skip"]:
+        cmd += ["--first-frame", str(case["skip"])]
+    case["cmd"] = cmd
+    return vf.run_proc(cmd, env=env, timeout=600, cwd=case["dir"])
+
+
+def _bump(chk, k, n=1):
+    chk.counters[k] = chk.counters.get(k, 0) + n
+
+
+def judge_pf_case(chk, case, res):
+    fam = "exe/per-frame-presence/dump->" + case["outfmt"]
+    files = {os.path.basename(p): open(p).read()
+             for p in [case["top"], case["trj"]] + case["cg"]}
+    wit = {"cmd": case["cmd"], "case": case["label"], "files": files,
+           "rc": res.rc, "stderr_tail": res.err[-1500:]}
+
+    def viol(key, detail, what):
+        w = dict(wit)
+        w.update(detail)
+        if os.path.exists(case["out"]):
+            w["output_file"] = open(case["out"]).read()[:20000]
+        chk.violation(PF_KEY + key, w, what)
+
+    _bump(chk, "pf_cases_pattern_" + case["pattern"])
+    _bump(chk, "pf_cases_kind_" + case["kind"])
+    _bump(chk, "pf_cases_flags_" + ("+".join(f[2:] for f in case["flags"])
+                                    or "none"))
+    _bump(chk, "pf_cases_first_frame_%s" % ("skipped" if case["skip"]
+                                            else "processed"))
+    mols = orc.load_topology_xml(case["top"])
+    maps = {}
+    for p in case["cg"]:
+        m = orc.load_mapping_xml(p)
+        maps[m["ident"]] = m
+    frames = orc.parse_dump(case["trj"])
+    proc = frames[1:] if case["skip"] else frames
+    exp = [orc.expected_frame(mols, maps, f) for f in proc]
+    if any(e["inband"] or e["oversize"] for ef in exp for e in ef):
+        _bump(chk, "exe_dontcare_runs_within_band_of_half_box")
+        return
+    if res.timed_out:
+        chk.inconclusive.append("watchdog: csg_map " + fam)
+        return
+    aborted = False
+    if res.rc != 0:
+        aborted = True
+        m = [q for q in ("velocity", "force")
+             if "bead_%s_set_" % q in res.err]
+        if m:
+            viol("abort-on-frame-without-" + m[0], {},
+                 "csg_map --vel/--force ends in an assertion (unset vector "
+                 "read) while writing a frame whose CG beads never received "
+                 "the quantity; frames that do carry it are never written")
+        elif not chk.proc_result(res, "csg_map " + fam, wit):
+            pass
+    got = []
+    if os.path.exists(case["out"]):
+        try:
+            got = orc.parse_out_gro(case["out"]) if case["outfmt"] == "gro" \
+                else orc.parse_out_dump(case["out"])
+        except (ValueError, IndexError, KeyError) as e:
+            viol("output-unparsable", {"parse_error": repr(e)},
+                 "the file written by csg_map cannot be parsed")
+            return
+        got = [g for g in got if not g.get("truncated")]
+    if not aborted and len(got) != len(proc):
+        viol("frame-count", {"frames_written": len(got),
+                             "frames_expected": len(proc)},
+             "number of written frames differs from the processed frames")
+    nb = ntriv = 0
+    has_v = [f["vel"] is not None for f in proc]
+    has_f = [f["force"] is not None for f in proc]
+    mixed = len(set(has_v)) > 1 or len(set(has_f)) > 1
+    for fi in range(min(len(got), len(proc))):
+        want_v = "--vel" in case["flags"] and has_v[fi]
+        want_f = "--force" in case["flags"] and has_f[fi] and \
+            case["outfmt"] == "dump"
+        bad = orc.compare_frame(exp[fi], got[fi], case["outfmt"], want_v,
+                                want_f, proc[fi]["box"])
+        nb += len(exp[fi])
+        ntriv += sum(1 for e in exp[fi] if e["unwrapped"])
+        if want_v:
+            _bump(chk, "pf_frames_velocity_judged")
+        if want_f:
+            _bump(chk, "pf_frames_force_judged")
+        for key, detail in bad[:3]:
+            detail = dict(detail)
+            detail["frame_of_processed"] = fi
+            q = key.split("/")[-1]
+            if q == "velocity-missing":
+                viol("velocity-missing-in-frame", detail,
+                     "--vel given and the parents of this frame carry "
+                     "velocities, but the written frame has none")
+            elif q == "force-missing":
+                viol("force-missing-in-frame", detail,
+                     "--force given and the parents of this frame carry "
+                     "forces, but the written frame has none")
+            else:
+                detail["quantity"] = key
+                viol("value-mismatch", detail,
+                     "written frame differs from the weighted sums of the "
+                     "parents of this frame")
+        # frames whose parents lack a requested quantity: no value is
+        # defined; what is written is recorded only
+        for flag, have, col in (("--vel", has_v[fi], "vel"),
+                                ("--force", has_f[fi], "force")):
+            if flag in case["flags"] and not have and not (
+                    col == "force" and case["outfmt"] == "gro"):
+                w = got[fi].get(col)
+                what = "column_absent" if w is None else (
+                    "zeros" if all(x == 0 for r in w for x in r)
+                    else "values_of_an_earlier_frame_or_other")
+                _bump(chk, "pf_observed_only_frame_without_parent_%s_written_"
+                      "as_%s" % (col, what))
+    chk.count(fam, nb, nontrivial=ntriv + (1 if mixed and nb else 0))
+    if nb and mixed and len(chk.samples) < 6 and not aborted:
+        chk.sample({"family": fam, "case": case["label"],
+                    "frames_processed": len(proc),
+                    "parents_have_velocity": has_v,
+                    "parents_have_force": has_f,
+                    "written_has_velocity": [g.get("vel") is not None
+                                             for g in got],
+                    "written_has_force": [g.get("force") is not None
+                                          for g in got]})
+
+
 def run(chk):
     shards = 16
     cases = vf.tier_n(chk.tier, 150, 4000)      # library cases per shard
     nexe = vf.tier_n(chk.tier, 96, 1600)        # csg_map runs
+    npf = vf.tier_n(chk.tier, 240, 1920)        # per-frame presence runs
     h = vf.build_harness("asan", "c01")
     vf.build_flavour("asan", ["csg_map"])
     exe = vf.exe("asan", "csg_map")
@@ -499,13 +690,26 @@ def run(chk):
             ecases.append(make_case(rng, os.path.join(work, "exe%04d" % k),
                                     infmt, outfmt, reject, rng2))
         jobs += [lambda c=c: run_case(c, exe, env) for c in ecases]
+        pcases = []
+        for j in range(npf):
+            rng = random.Random(chk.seed * 999983 + 17 * j + 3)
+            # every combination once per 240 runs; the seed rotates the start
+            combo = PF_COMBOS[(j + 37 * chk.seed) % len(PF_COMBOS)]
+            pcases.append(make_pf_case(
+                rng, os.path.join(work, "pf%04d" % j), combo))
+        jobs += [lambda c=c: run_pf_case(c, exe, env) for c in pcases]
         results = vf.run_parallel(jobs)
         for s, res in enumerate(results[:shards]):
             if not chk.ingest(res, "c01 library shard %d" % s, prefix="lib/",
                               keyprefix="lib/"):
                 chk.sanitizer["reports"] += 0 if res.rc == 0 else 1
-        for c, res in zip(ecases, results[shards:]):
+        for c, res in zip(ecases, results[shards:shards + nexe]):
             judge_case(chk, c, res, work)
+        for c, res in zip(pcases, results[shards + nexe:]):
+            judge_pf_case(chk, c, res)
+        chk.extra["per_frame_presence_cases"] = {
+            k[len("pf_cases_"):]: v for k, v in sorted(chk.counters.items())
+            if k.startswith("pf_cases_")}
     finally:
         shutil.rmtree(work, ignore_errors=True)
     chk.assumptions = [
@@ -523,6 +727,13 @@ def run(chk):
         "when the parents carry no positions/velocities/forces in a frame "
         "the statement defines no value: that the CG bead keeps the value "
         "and the 'set' flag of an earlier frame is counted as an observation",
+        "per-frame presence: a frame whose parents carry no velocities / "
+        "forces has no defined mapped value - what csg_map writes there "
+        "(column absent, zeros, values of an earlier frame) is counted, not "
+        "judged; the run must still write every frame that does carry the "
+        "quantity, so an abort while writing the undefined frame is a "
+        "violation of its own key; --begin cannot be exercised (no reader "
+        "used here sets a time)",
         "mapping files with d != 0 where w == 0 (refused by the library by "
         "design) and ellipsoidal beads with fewer than three parents are "
         "not generated"]
@@ -564,10 +775,19 @@ def replay(path):
                 "out": os.path.join(work, os.path.basename(out)),
                 "infmt": infmt, "outfmt": out.rsplit(".", 1)[1],
                 "with_vel": "--vel" in cmd, "with_force": "--force" in cmd}
-        res = run_case(case, vf.exe("asan", "csg_map"), env)
         chk = vf.Check("C01", "replay", rec.get("seed", 1))
         chk.replay_dir = os.path.join(work, "replay")
-        ok = judge_case(chk, case, res, work)
+        if "case" in w:        # per-frame presence witness
+            lab = w["case"].split("/")
+            case.update(flags=[a for a in cmd if a in ("--vel", "--force")],
+                        skip=2 if "--first-frame" in cmd else 0,
+                        pattern=lab[0], kind=lab[1], label=w["case"])
+            res = run_pf_case(case, vf.exe("asan", "csg_map"), env)
+            judge_pf_case(chk, case, res)
+            ok = not chk.violations
+        else:
+            res = run_case(case, vf.exe("asan", "csg_map"), env)
+            ok = judge_case(chk, case, res, work)
         for k, v in sorted(chk.violations.items()):
             print("VIOLATION property=C01 replay=%s key=%s %s" %
                   (path, k, v["what"]))
